@@ -185,6 +185,8 @@ class FpContext(object):
         st = self.models.fp_silenced
         top = set(st[-1])
         for k, v in (self.errstate or {}).items():
+            if k == 'call':
+                continue                       # the error callback of mode 'call': no floating-point event occurs in the abstract run
             kinds = FP_KINDS if k == 'all' else {k}
             if k != 'all' and k not in FP_KINDS:
                 raise AnalysisError('np.errstate(%s=..)' % k)
